@@ -239,7 +239,8 @@ ExecNode(cx, st0, n, line) ==
     [] n.t = "assign" ->
          LET v == Eval(n.e, st0.env) IN
            IF v.r = "err" THEN Fail(cx, st0, line, "eval")
-           ELSE [st0 EXCEPT !.env = SetVar(st0.env, n.name, IF v.r = "unspec" THEN Unspec ELSE v.v)]
+           ELSE IF v.r = "unspec" THEN Undecided(st0)        \* may be a value or an error
+           ELSE [st0 EXCEPT !.env = SetVar(st0.env, n.name, v.v)]
     [] n.t = "capture" ->
          [st0 EXCEPT !.ws = Append(@, Writer0),
                      !.k = Append(@, SeqF(n.body, "capture", line, line, n.name))]
